@@ -33,6 +33,10 @@ CHECKS = {
   text="Lean 4 model of ParseState (descend_path, on_keyval, start_table, start_array_table, finalize_table) over an explicit tree with implicit/dotted flags; theorems in Props/C09.lean proved for every statement history: a key/value is inserted only into a vacant slot, every value defined earlier stays defined and unchanged (whole-run monotonicity T09_run over indexed paths), duplicates / extending a value / reopening explicit, dotted or array tables / dotted keys reaching into arrays of tables are rejected. Correspondence and search: every sequence of up to 3 statements (thorough: 4) from {[p], [[p]], p = 1, p = {q = 1}, p = {q.r = 1}, p = []} over 9 paths on a 2-letter alphabet with random bare/basic/literal spellings, enumerated exhaustively, plus random longer sequences on 3 letters: three-way comparison implementation vs model vs an independent formulation of the definition rules (tools/defrules.py: flat path->kind map written from the prose); class U1 is skipped and counted.",
   note="Trusted: Lean kernel, sampling correspondence beyond the enumerated scope, tools/defrules.py as the reading of the specification's prose (DESIGN.md section 3.3), indexmap modelled as an association list.",
   technique="Lean 4 proof (invariant over statement histories) + exhaustive small-scope three-way comparison", design="7/C09"),
+ "C15": dict(
+  text="Lean 4 model of winnow's char_boundary (ParseError::char_span), of translate_position and of the index arithmetic in Display for TomlError; theorems in Props/C15.lean (span within bounds and on character boundaries for every offset; line/column = newlines before / characters since the last newline for every valid UTF-8 text and boundary index, with the end-of-input convention; rendering cannot fail). The model is compared with the implementation on every rejected text (span from its start, rendered line/column); direct oracles on the implementation: span within bounds and on boundaries, non-empty message, line/column against an independent character count, toml::de::Error = toml_edit::TomlError; typed decodes of valid generated documents against mismatching target kinds through three deserializer routes must fail with the offending value's span (with source) or the key path (without).",
+  note="Trusted: Lean kernel, sampling correspondence; which offset winnow reports is not modelled (only that the span derived from it is well-formed). Known finding F13 (empty message where no parser context applies; pinned by an existing snapshot) is listed in known_findings.json by call site.",
+  technique="Lean 4 proof (position arithmetic) + differential correspondence + direct oracles", design="7/C15"),
 }
 
 NA = {}
